@@ -256,10 +256,7 @@ Proof.
       split.
       * eapply (thread_only_pending t s sp now d (Some tk) th); eassumption.
       * eapply (thread_complete t s sp now d (Some tk) th); eassumption.
-    + assert (O : r_outs (if th =? nthreads s
-                          then {| r_st := s; r_outs := []; r_ok := true; r_disp := DNone; r_panic := true |}
-                          else res s [] true DNone) = []) by (destruct (th =? nthreads s); reflexivity).
-      rewrite O. split; [unfold c01_data_only_pending; reflexivity|].
+    + cbn [r_outs res]. split; [unfold c01_data_only_pending; reflexivity|].
       unfold c01_data_complete. destruct (data_effective (faces s) d); [|reflexivity]. cbn [negb orb].
       assert (NS : forall p, sat_rec (tid s) d p = false) by (intros p; unfold sat_rec; rewrite DT, E; reflexivity).
       assert (F : forall l, filter (fun p => sat_rec (tid s) d p && (now <? p_exp p) && negb (p_face p =? d_face d) &&
@@ -344,7 +341,7 @@ Proof.
         destruct (cs_evict _ _ _ _); reflexivity. }
       cbv zeta. destruct (data_matches _ _ _); cbn; exact C. }
     destruct (data_token (d_tok d)) as [[th tk]|]; [|apply T].
-    destruct (th =? tid s); [apply T|]. destruct (th =? nthreads s); reflexivity.
+    destruct (th =? tid s); [apply T|]. reflexivity.
   - unfold step_tick. destruct (pop_chosen _ _ _ _ _) as [pd ok]. reflexivity.
   - destruct n; reflexivity.
 Qed.
